@@ -33,6 +33,8 @@ type Stage struct {
 	AllCfgs bool     // replay every kept behaviour under EVERY standard concretisation (not one chosen per behaviour)
 	Needs   []string // further required actions; "Name*2" = at least two occurrences
 	Need    string   // if set, keep only behaviours that contain an action with this name
+	Has     []string // raw substrings of the emitted JSON that must occur
+	Not     []string // raw substrings of the emitted JSON that must not occur
 	MinNs   int      // if > 0, keep only behaviours in which some transaction sets the size to at least this many model pages
 	Workers int      // parallel replays (0 = one per CPU); the lock-page layout needs gigabytes per replay
 }
@@ -79,6 +81,16 @@ func Collect(rep *core.Report, st Stage, seed int64) []Trace {
 			}
 			if !okNeeds {
 				return
+			}
+			for _, h := range st.Has {
+				if !bytes.Contains(payload, []byte(h)) {
+					return
+				}
+			}
+			for _, h := range st.Not {
+				if bytes.Contains(payload, []byte(h)) {
+					return
+				}
 			}
 			if st.MinNs > 0 {
 				ok := false
